@@ -124,12 +124,21 @@ func c15Func(c *Ctx, fd *ast.FuncDecl) {
 		skel.Undecided("goroutines are spawned outside a container method")
 		return
 	}
-	paths, why := c.runPaths(fd)
+	sx := c.NewSX()
+	sx.InlineStaticSelf = true // a variant built on a sibling (MapAsync on ForEachAsync of the same receiver) is followed into it
+	paths := sx.Run(fd)
+	why := ""
+	for _, p := range paths {
+		if p.Why != "" {
+			why = p.Why
+		}
+	}
 	if why != "" {
 		skel.Undecided("body outside the path vocabulary: %s", why)
 		return
 	}
 	v := c.view(fd)
+	paths = v.normalizePaths(paths)
 	// a shortcut for the empty container (`if len(spine) == 0 { return … }`) is set aside: it must return what the main path returns and
 	// start nothing; the main path is then the one on which the container is non-empty
 	emptyTest := func(cd Cond) (isTest, empty bool) {
